@@ -190,6 +190,11 @@ func (m *TransferShare) handlerTransferShares(
 	from, to common.Address,
 	sharesInt *big.Int,
 ) (*big.Int, *big.Int, error) {
+	// both delegations are read before either is rewritten: with from == to the second write
+	// would store shares + amount on top of an unchanged validator
+	if from == to {
+		return nil, nil, errors.New("cannot transfer shares to the same address")
+	}
 	validator, err := m.stakingKeeper.GetValidator(ctx, valAddr)
 	if err != nil {
 		return nil, nil, err
